@@ -1,44 +1,48 @@
 """Toy bulk ciphers / AEAD mirrored in coq/Toy/C01_ToyCipher.v.  They are duck-typed
 replacements for ConnectionState.encContext (tlslite never checks the class), so the
 real RecordLayer.sendRecord/recvRecord run unchanged on top of them."""
-TM_P = (1 << 61) - 1
+M32 = 0xFFFFFFFF
+
+
+def tm_mix(h):
+    h ^= (h << 13) & M32
+    h ^= h >> 17
+    h ^= (h << 5) & M32
+    return h
 
 
 class ToyMac(object):
     """Duck-typed hashlib/hmac object (copy/update/digest/digest_size/block_size) mirrored by
-    toy2_mac in coq/Toy/C01_ToyCipher.v: polynomial hash modulo 2^61-1."""
+    toy2_mac in coq/Toy/C01_ToyCipher.v: xorshift32 bijection per input byte."""
 
-    def __init__(self, key, digest_size, block_size=64, _st=None):
+    def __init__(self, key, digest_size, block_size=64, _h=None):
         self.key = bytes(bytearray(key))
         self.digest_size = digest_size
         self.block_size = block_size
         self.name = 'toy2-%d' % digest_size
-        if _st is None:
-            h = 1000003
+        if _h is None:
+            _h = 2463534242
             for b in self.key:
-                h = (h * 257 + b + 1) % TM_P
-            base = h + 2
-            _st = (base, base % 65521 + 1)
-        self.base, self._h = _st
+                _h = tm_mix(_h ^ (b + 1))
+        self._h = _h
 
     def copy(self):
-        return ToyMac(self.key, self.digest_size, self.block_size, (self.base, self._h))
+        return ToyMac(self.key, self.digest_size, self.block_size, self._h)
 
     def update(self, data):
-        h, base = self._h, self.base
+        h = self._h
         for b in bytearray(data):
-            h = (h * base + b + 1) % TM_P
+            h = tm_mix(h ^ (b + 1))
         self._h = h
 
     def digest(self):
-        out, h, n = bytearray(), self._h, self.digest_size
+        out, h, n = bytearray(), tm_mix(self._h ^ 2654435769), self.digest_size
         while n > 0:
-            for j in range(min(n, 7)):
+            for j in range(min(n, 4)):
                 out.append((h >> (8 * j)) & 255)
-            h = (h * self.base + 17) % TM_P
-            n -= 7
+            h = tm_mix(h ^ 1540483477)
+            n -= 4
         return bytes(out)
-
 
 
 def ts_step(h):
